@@ -780,6 +780,7 @@ func memGet(mdb *memdb.DB, ikey internalKey, icmp *iComparer) (ok bool, mv []byt
 
 func (db *DB) get(auxm *memdb.DB, auxt tFiles, key []byte, seq uint64, ro *opt.ReadOptions) (value []byte, err error) {
 	ikey := makeInternalKey(nil, key, seq, keyTypeSeek)
+	verifPoint("get:seq-mems")
 
 	if auxm != nil {
 		if ok, mv, me := memGet(auxm, ikey, db.s.icmp); ok {
@@ -788,6 +789,7 @@ func (db *DB) get(auxm *memdb.DB, auxt tFiles, key []byte, seq uint64, ro *opt.R
 	}
 
 	em, fm := db.getMems()
+	verifPoint("get:mems-version")
 	for _, m := range [...]*memDB{em, fm} {
 		if m == nil {
 			continue
@@ -818,6 +820,7 @@ func nilIfNotFound(err error) error {
 
 func (db *DB) has(auxm *memdb.DB, auxt tFiles, key []byte, seq uint64, ro *opt.ReadOptions) (ret bool, err error) {
 	ikey := makeInternalKey(nil, key, seq, keyTypeSeek)
+	verifPoint("get:seq-mems")
 
 	if auxm != nil {
 		if ok, _, me := memGet(auxm, ikey, db.s.icmp); ok {
@@ -826,6 +829,7 @@ func (db *DB) has(auxm *memdb.DB, auxt tFiles, key []byte, seq uint64, ro *opt.R
 	}
 
 	em, fm := db.getMems()
+	verifPoint("get:mems-version")
 	for _, m := range [...]*memDB{em, fm} {
 		if m == nil {
 			continue
